@@ -1496,7 +1496,8 @@ pub fn run(a: &Args, rep: &mut Report, focus: &str) {
             if under_miri {
                 vec![Kind::Mapped, Kind::Offset]
             } else {
-                vec![Kind::Mapped, Kind::Offset, Kind::Recursive]
+                // the software MMU costs ~1 ms per call (page faults): give it every ninth history
+                vec![Kind::Mapped, Kind::Offset, Kind::Mapped, Kind::Offset, Kind::Recursive, Kind::Mapped, Kind::Offset, Kind::Mapped, Kind::Offset]
             }
         }
     };
